@@ -20,14 +20,15 @@ TRUSTED = [
     "numpy.linalg.eigh, the clipping of negative eigenvalues and numpy.linalg.qr (pep.py 873-887): 'the leaf "
     "vectors reproduce the PSD projection of G' is a HYPOTHESIS of C02_gram_reading, measured on every solve of "
     "both streams (fake: against the exactly known projection, 1e-7; SCS: against an independent eigh, 1e-6)",
-    "harness/solvelib.py: FakeSolveWrapper, program generator, Fraction oracle",
+    "harness/solvelib.py: FakeSolveWrapper (also answers the re-solves of the dimension-reduction heuristics), program "
+    "generator, Fraction oracle",
     "C02_primal_le_dual is C01's weak-duality theorem; here it is only measured on the SCS stream",
 ]
 ASSUMES = [
     "solver optimality for C02_objective_is_min (explicit hypothesis: optimal among points differing in tau only)",
     "P^T P = G+ (numpy eigh/QR) for C02_gram_reading",
 ]
-OWN = {"broadcast-after-new-point"}
+OWN = {"empty-combination-dimension"}
 
 
 def _seeds(tier, seed, n):
@@ -37,28 +38,56 @@ def _seeds(tier, seed, n):
 
 def stream_real(tier, seed):
     n = 12 if tier == "quick" else 60
+    nb = 4 if tier == "quick" else 8
     problems, stats, samples = [], {}, []
     for idx in range(n):
-        p, h = S.real_model(idx + 6 * (seed % 1000))
-        S.check_instance(p, h, idx + 6 * (seed % 1000), problems, stats)
-        if idx < 2:
-            samples.append(dict(model=h["info"], objective=float(p.objective.eval())))
+        m = idx + 6 * (seed % 1000)
+        try:
+            p, h = S.real_model(m)
+            S.check_instance(p, h, m, problems, stats)
+            if idx < 2:
+                samples.append(dict(model=h["info"], objective=float(p.objective.eval())))
+        except Exception as e:         # solving / evaluating a well-posed model must not raise
+            problems.append(dict(kind="real-model-raised", model=m, error="%s: %s" % (type(e).__name__, str(e)[:200])))
+    bstats = {}
+    for k in range(nb):
+        idx = 2 * k if tier == "quick" else k
+        try:
+            p, h = S.real_badscale(idx)
+            S.check_instance(p, h, "badscale-%d" % idx, problems, bstats)
+        except Exception as e:
+            problems.append(dict(kind="real-model-raised", model="badscale-%d" % idx,
+                                 error="%s: %s" % (type(e).__name__, str(e)[:200])))
     for pr in problems:
         pr["generator"] = "real"
-    return dict(name="scs-instances", evaluations=n, distinct_nontrivial=n,
+    return dict(name="scs-instances", evaluations=n + nb, distinct_nontrivial=n + nb,
                 rule="small gradient-type PEPs (6 families: plain, two metrics, symmetric linear operator, quadratic, "
-                     "block partition, user LMI) solved with SCS (eps 1e-9); Gram of the evaluated leaf points vs the "
-                     "PSD projection of G_value (1e-6 scale), every sent constraint / LMI at the instance (1e-4 scale), "
-                     "objective = min metric (1e-5 scale), primal <= dual + 1e-3 scale, objects built after the solve "
-                     "= combination of operand values (1e-10); distinct = distinct parameter tuples",
+                     "block partition, user LMI) solved with SCS (eps 1e-9), plus badly scaled subgradient models "
+                     "(M = 0.02 / 0.03) solved with the trace / logdet dimension-reduction heuristics; Gram of the evaluated "
+                     "leaf points vs the PSD projection of G_value (1e-6 scale), G_value = the matrix the solver returned at "
+                     "its last call (exact), every sent constraint / LMI at the instance (1e-4 scale), objective = min metric "
+                     "(1e-5 scale, without heuristic), primal <= dual + 1e-3 scale, objects built after the solve = "
+                     "combination of operand values (1e-10), and -- regression of the repaired F-C02a -- a derived point "
+                     "first evaluated after a new leaf point was created; distinct = distinct parameter tuples",
                 n_mismatch=0, mismatches=[], problems=problems[:5], n_problems=len(problems),
-                samples=samples, distribution=dict(max_relative_residuals={k: float("%.3g" % v) for k, v in stats.items()}))
+                samples=samples,
+                distribution=dict(max_relative_residuals={k: float("%.3g" % v) for k, v in stats.items()},
+                                  badly_scaled_max_relative_residuals={k: float("%.3g" % v) for k, v in bstats.items()}))
+
+
+def stream_regression():
+    """the trigger of the repaired F-C02a (fix: e997f00) as permanent cases: a failure is a VIOLATION"""
+    r = S.run_stream("c02-regression", "c02reg", [0, 1, 2], OWN)
+    r["rule"] = ("regression of F-C02a (fixed by e997f00): solve; Point(); evaluate derived points never evaluated before "
+                 "(built before / after the new leaf point), the empty combination and the leaf points; compared with "
+                 "the model and with the Fraction oracle")
+    return r
 
 
 def correspondence(tier, seed, corpus=()):
     n = 400 if tier == "quick" else 5000
     seeds = [int(c["case_seed"]) for c in corpus if c.get("generator") == "c02"] + _seeds(tier, seed, n)
-    return [S.run_stream("c02-injected", "c02", seeds, OWN), stream_real(tier, seed)]
+    return [stream_regression(), S.run_stream("c02-injected", "c02", seeds, OWN), stream_real(tier, seed)]
 
 
 def search(tier, seed):
@@ -66,33 +95,42 @@ def search(tier, seed):
     found = S.direct_search("c02", [seed * 1000003 + 777000 + i for i in range(n)])
     if found:
         return found
+    for gs in range(3):
+        w = S.GENERATORS["c02reg"](gs)
+        for pr in w.problems:
+            if pr["kind"] not in S.KNOWN_KINDS:
+                return dict(generator="c02reg", case_seed=gs, trace=w.trace, **pr)
     problems, stats = [], {}
-    for idx in range(12):
-        p, h = S.real_model(idx)
-        S.check_instance(p, h, idx, problems, stats)
+    for m in list(range(12)) + ["badscale-%d" % k for k in range(8)]:
+        try:
+            p, h = S.real_badscale(int(m.split("-")[1])) if isinstance(m, str) else S.real_model(m)
+            S.check_instance(p, h, m, problems, stats)
+        except Exception as e:
+            problems.append(dict(kind="real-model-raised", model=m, error="%s: %s" % (type(e).__name__, str(e)[:200])))
         if problems:
             return dict(generator="real", **problems[0])
     return None
 
 
-def _finding_C02a():
-    """solve (SCS); Point(); evaluate a not-yet-cached derived point"""
+def _finding_C02b():
+    """solve (SCS); Point(); the empty combination x0 - x0, first evaluated now, has one coordinate more than x0"""
     from PEPit import Point
     p, h = S.real_model(0)
     S._quiet_solve(p)
     Point()
-    try:
-        (h["x0"] - h["xs"]).eval()
-    except ValueError as e:
-        return "broadcast" in str(e)
-    return False
+    z = h["x0"] - h["x0"]
+    return len(z.decomposition_dict) == 0 and z.eval().shape != h["x0"].eval().shape
 
 
 def known_findings(known):
     out = []
     for k in known:
-        if k["id"] == "F-C02a":
-            out.append((k["id"], _finding_C02a(), k["what"]))
+        if k["id"] == "F-C02b":
+            try:
+                still = _finding_C02b()
+            except Exception:          # anything else than the listed behaviour is not this finding
+                still = False
+            out.append((k["id"], still, k["what"]))
     return out
 
 
@@ -106,8 +144,15 @@ def is_known(payload, known):
 def replay(payload):
     if payload.get("generator") == "real":
         problems, stats = [], {}
-        p, h = S.real_model(payload["model"])
-        S.check_instance(p, h, payload["model"], problems, stats)
+        m = payload["model"]
+        if isinstance(m, str) and m.startswith("badscale-"):
+            p, h = S.real_badscale(int(m.split("-")[1]))
+        else:
+            p, h = S.real_model(int(m))
+        try:
+            S.check_instance(p, h, m, problems, stats)
+        except Exception:
+            return True
         return bool(problems)
     if "case_seed" in payload:
         return S.replay_case(payload)
